@@ -680,6 +680,19 @@ def stage_own_src_and_self(ctx: Ctx):
     replacing the node by its own copy / pure AST / source text, and cutting all elements of every block-level list and putting them back, gives the original tree"""
     import fst
     from fst.astutil import copy_ast
+    # a ROOT that is one statement / expression: own_src(whole=False) is the node alone (decorators are part of it) and parses back to it
+    for src, mode in [('@deco\ndef f(self):\n    return 1  # c\n', None), ('# lead\n@d(1)\nclass K: pass\n# trail\n', None), ('@a\n@b\nasync def g(): pass', None), ('x = 1  # c', None), ('# c\n(a +\n b)', 'expr'),
+                      ('\n\nif a:\n    b\nelse:\n    c  # d\n\n', None), ('# c\n[a, b]  # d\n', 'expr')]:
+        try:
+            r_ = fst.FST(src, mode) if mode else fst.FST(src)
+            osrc = r_.own_src(whole=False)
+            back = fst.FST(osrc, type(r_.a))
+            d = cmp_ast(squash_multiline_strings(back.a), squash_multiline_strings(r_.a), positions=False, ctx=False)
+        except Exception as e:
+            d, osrc = [f'own_src(whole=False) / parse raised {e!r}'[:200]], None
+        ctx.tick(('own-src-root', src), 'sweep:own_src:root')
+        if d:
+            ctx.violation(f'own_src-struct|root|{type(r_.a).__name__}', 'own_src(whole=False) of a root node parses to a different node', {'src': src, 'own_src': osrc, 'diffs': d[:5]})
     for src in OWN_PROGS:
         ref = ast.parse(src)
         probe = fst.FST(src, 'exec')
